@@ -70,3 +70,40 @@ func (e *Executor) VerifFieldServices() map[string][]string {
 	walk(p.schema.Schema.Query, map[graphql.Type]bool{})
 	return out
 }
+
+// VerifSubQuery is one request the executor would send for a plan node.
+type VerifSubQuery struct {
+	Service string
+	Query   *graphql.Query
+}
+
+// VerifSubQueries plans a query and returns the sub-queries the executor would send,
+// with an empty key list on federated hops (keys are data, not schema).
+func (p *Planner) VerifSubQueries(q *graphql.Query) ([]VerifSubQuery, error) {
+	plan, err := p.planRoot(q)
+	if err != nil {
+		return nil, err
+	}
+	var out []VerifSubQuery
+	var walk func(pl *Plan, root bool)
+	walk = func(pl *Plan, root bool) {
+		if pl.Service != gatewayCoordinatorServiceName {
+			ss := pl.SelectionSet
+			if !root {
+				name := pl.Service + "_" + pl.Type
+				ss = &graphql.SelectionSet{Selections: []*graphql.Selection{{
+					Name: federationField, Alias: federationField, Args: map[string]interface{}{},
+					SelectionSet: &graphql.SelectionSet{Selections: []*graphql.Selection{{
+						Name: name, Alias: name, UnparsedArgs: map[string]interface{}{"keys": []interface{}{}}, SelectionSet: pl.SelectionSet,
+					}}},
+				}}}
+			}
+			out = append(out, VerifSubQuery{Service: pl.Service, Query: &graphql.Query{Kind: pl.Kind, SelectionSet: ss}})
+		}
+		for _, sub := range pl.After {
+			walk(sub, pl.Service == gatewayCoordinatorServiceName)
+		}
+	}
+	walk(plan, false)
+	return out, nil
+}
